@@ -81,6 +81,13 @@ def gen(run):
     for _ in range(40 if quick else 400):
         ops = [rng.choice(pool) for _ in range(rng.randint(1, 8))]
         hist.append('r ' + ' '.join(hx(o) for o in ops))
+    # the helpers at the length limit: two-part names (empty action) and three-part names of exactly 35, 36 and 37 characters
+    for m in (b'app', b'biz', b'rpc'):
+        for total in (35, 36, 37):
+            sub = bytes(rng.choice(b'abcxyz09') for _ in range(total - 2 - len(m)))          # _<m>_<sub>
+            hist.append('b %s %s %s' % (hx(m), hx(sub), hx(b'')))
+            sub2 = bytes(rng.choice(b'abcxyz09') for _ in range(total - 3 - len(m) - 5))     # _<m>_<sub>_<act5>
+            hist.append('b %s %s %s' % (hx(m), hx(sub2), hx(b'abcde')))
     # a configuration comes and goes in the middle of the history: registration is refused while it is live and works again afterwards,
     # and the list keeps showing exactly what was registered
     for k in range(3):
